@@ -11,7 +11,7 @@ pub fn match_path(&self, path: &PathS, is_dir: bool, env: &mut IEnv) -> (r: Matc
         final(env).mark@ == old(env).consulted@.len(),
         // only ignore files of directories that contain the path are matched against it, nearest directory first, each at most once; every
         // file consulted before the deciding one said nothing; the verdict is the deciding file's answer
-        walk_ok(*path, is_dir, cur(final(env)), view_match(r)), // OBL:C03+C14.match_path.walk_in_scope_nearest_first_verdict_of_the_nearest_match
+        walk_ok(*path, is_dir, cur(final(env)), view_match(r)), // OBL:C03+C14+C11.match_path.walk_in_scope_nearest_first_verdict_of_the_nearest_match
         // the files asked are the ones stored in the filter for those directories, asked in the mode the path's position calls for
         forall|i: int| 0 <= i < cur(final(env)).len() ==> self.ignores.m@.contains_key((#[trigger] cur(final(env))[i]).g.root)
             && self.ignores.m@[cur(final(env))[i].g.root].gitignore == cur(final(env))[i].g && cur(final(env))[i].parents == path_anc(self.origin, *path), // OBL:C03+C14.match_path.asks_the_stored_file_of_each_directory
@@ -44,7 +44,7 @@ pub fn check_event(&self, event: &Event, _priority: Priority, env: &mut IEnv) ->
         event.path_tags@.len() == 0 ==> r == Ok::<bool, RuntimeError>(true), // OBL:C03+C11.check_event.no_paths_passes
         // a single-path event passes unless the walk over the ignore files of its ancestor directories ends in an in-scope ignore
         event.path_tags@.len() == 1 ==> walk_ok(event.path_tags@[0].0, event.path_tags@[0].1 == Some(FileType::Dir), cur(final(env)), verdict_of(cur(final(env)), event.path_tags@[0].0, event.path_tags@[0].1 == Some(FileType::Dir)))
-            && r == Ok::<bool, RuntimeError>(!ignored(verdict_of(cur(final(env)), event.path_tags@[0].0, event.path_tags@[0].1 == Some(FileType::Dir)), event.path_tags@[0].0)), // OBL:C03.check_event.single_path_verdict
+            && r == Ok::<bool, RuntimeError>(!ignored(verdict_of(cur(final(env)), event.path_tags@[0].0, event.path_tags@[0].1 == Some(FileType::Dir)), event.path_tags@[0].0)), // OBL:C03+C11.check_event.single_path_verdict
         // any number of paths: each path's verdict comes from a complete walk over the stored ignore files, and the event's verdict is their left-to-right
         // fold (an in-scope ignore rejects, a negated match re-admits, anything else keeps the verdict so far)
         event_passes_by_fold(&self.0, event.path_tags@, r->Ok_0), // OBL:C03+C11.check_event.multi_path_verdict_is_the_fold_of_the_per_path_verdicts
